@@ -110,6 +110,7 @@ func TestVerifC08(t *testing.T) {
 	}
 
 	c08Sequential(run)
+	c08Stress(run)
 
 	nh := run.N(250, 4000)
 	if verifRaceEnabled {
@@ -293,6 +294,86 @@ func c08Budget(run *vlib.Run) time.Duration {
 		return 600 * time.Second
 	}
 	return 60 * time.Second
+}
+
+// c08Stress runs long, unrecorded high-contention rounds watched by the in-critical-section
+// monitors only (no history: the offline checker wants short histories, the invariants want
+// many hand-overs with the shortest possible critical sections).
+func c08Stress(run *vlib.Run) {
+	rounds := run.N(10, 120)
+	per := 12000
+	if verifRaceEnabled {
+		rounds, per = run.N(3, 20), 4000
+	}
+	for k := 0; k < rounds; k++ {
+		k := k
+		run.OneCase(vlib.FixedBase+100+k, func(c *vlib.Case) {
+			r := c.R
+			ng := r.PickInt([]int{3, 4, 8, 16, 16})
+			nl := r.PickInt([]int{1, 1, 2})
+			tryEvery := r.PickInt([]int{0, 3, 7}) // 0: blocking acquires only
+			c.Begin(map[string]interface{}{"stress_round": k, "goroutines": ng, "locks": nl, "acquisitions_per_goroutine": per, "try_every": tryEvery})
+			h := &c08Hist{}
+			for i := 0; i < nl; i++ {
+				h.locks = append(h.locks, &c08Lock{rec: c08RecFor(0), lastHolder: -1, order: vlib.NewFP(), handoffs: map[[2]int]struct{}{}})
+			}
+			var wg gosync.WaitGroup
+			var start gosync.WaitGroup
+			start.Add(1)
+			wg.Add(ng)
+			var total, tryFail int64
+			for g := 0; g < ng; g++ {
+				go func(g int) {
+					defer wg.Done()
+					start.Wait()
+					var ok, fail int64
+					for i := 0; i < per; i++ {
+						lk := h.locks[(g+i)%nl]
+						if tryEvery != 0 && i%tryEvery == 0 {
+							if !lk.l.TryToAcquire() {
+								fail++
+								continue
+							}
+						} else {
+							lk.l.Acquire()
+						}
+						h.critical(g, lk, 0, false)
+						lk.l.Release()
+						ok++
+					}
+					atomic.AddInt64(&total, ok)
+					atomic.AddInt64(&tryFail, fail)
+				}(g)
+			}
+			done := make(chan struct{})
+			go func() { wg.Wait(); close(done) }()
+			start.Done()
+			select {
+			case <-done:
+			case <-time.After(c08Budget(run)):
+				run.Watchdog("stress round did not finish: some Acquire never returned")
+			}
+			sum := int64(0)
+			for _, lk := range h.locks {
+				sum += int64(lk.counter)
+			}
+			if sum != total {
+				c.Violationf("lost-update", "protected counters sum to %d but %d acquisitions succeeded", sum, total)
+			}
+			if atomic.LoadInt32(&h.bad) != 0 {
+				m := h.msg.Load().([2]string)
+				c.Violation(m[0], m[1])
+			}
+			run.Count("stress_critical_sections_checked", total)
+			run.Count("stress_try_failed", tryFail)
+			run.Count("critical_sections_checked", total)
+			fp := vlib.NewFP().Int(ng).Int(nl)
+			for _, lk := range h.locks {
+				fp = fp.U64(uint64(lk.order))
+			}
+			run.Nontrivial(fp)
+		})
+	}
 }
 
 // c08Sequential checks the deterministic facts on a quiescent lock.
